@@ -402,7 +402,13 @@ func c11ChildUnit() *Unit {
 		self, _ := os.Executable()
 		for i, c := range c11RecursiveCases() {
 			res.Execs++
-			cmd := exec.Command(self, "c11-child", fmt.Sprint(i))
+			childDir, derr := os.MkdirTemp(scratchRoot(), "c11c-")
+			if derr != nil {
+				res.HarnessErrors = append(res.HarnessErrors, derr.Error())
+				continue
+			}
+			defer os.RemoveAll(childDir) // the child may die without cleaning up
+			cmd := exec.Command(self, "c11-child", fmt.Sprint(i), childDir)
 			var buf bytes.Buffer
 			cmd.Stdout, cmd.Stderr = &buf, &buf
 			done := make(chan error, 1)
@@ -446,11 +452,13 @@ func firstLines(s string, n int) string {
 	return strings.Join(l, " | ")
 }
 
-func c11Child(idx int) {
+func c11Child(idx int, dir string) {
 	debug.SetMaxStack(64 << 20)
 	c := c11RecursiveCases()[idx]
-	dir, _ := os.MkdirTemp(scratchRoot(), "c11c-")
-	defer os.RemoveAll(dir)
+	if dir == "" {
+		dir, _ = os.MkdirTemp(scratchRoot(), "c11c-")
+		defer os.RemoveAll(dir)
+	}
 	o := c11Run(dir, c)
 	if o.panicked != "" {
 		fmt.Println("panic:", o.panicked)
